@@ -51,6 +51,9 @@ func runSolver(ctx context.Context, s solverSpec, file string, timeoutS int, see
 	dur = time.Since(t0).Seconds()
 	out = buf.String()
 	first := strings.TrimSpace(strings.SplitN(out, "\n", 2)[0])
+	if strings.Contains(out, "(error ") && !strings.Contains(out, "model is not available") {
+		return "error", out, dur
+	}
 	switch first {
 	case "sat", "unsat", "unknown":
 		return first, out, dur
@@ -119,6 +122,15 @@ func solve(file string, timeoutS int, seed int, crossCheck bool) SolveResult {
 	}
 	if res.Status == "unknown" || res.Status == "timeout" {
 		res.Output = errOut
+		nerr := 0
+		for _, a := range res.Answers {
+			if a == "error" {
+				nerr++
+			}
+		}
+		if nerr == len(solvers) {
+			res.Status = "error"
+		}
 	}
 	return res
 }
